@@ -217,7 +217,11 @@ theorem docTrace_clean (d : Doc) : Clean (docTrace d) := by
 Parse loop, DecodeElement(&Entry) as a state machine over tokens).  The theorems below are about it and
 the text `renderDoc d`; that encoding/xml + the Entry unmarshalling behave like `scanDoc` is the recorded
 assumption, compared by the driver on EVERY generated text, damaged ones included (`scanOk`).
-`WFDoc d`: every entry is valid against the schema and its texts lie in the subset's character data. -/
+`WFDoc d`: every entry is valid against the schema (`attrs ≤ 1`) and its texts lie in the subset's character
+data.  The agreement reader = decoder is CLAIMED (and compared by the driver, a difference being a failure
+of the check whatever the class of the case) for the texts of such documents, cut at any offset or with one
+character overwritten OUTSIDE attribute values and outside the prolog / root start tag — not for arbitrary
+texts: what lies outside the reader is listed in Spec/XmlScan. -/
 
 /-- the independent reader, on the text of a document, sees exactly the trace the document has by
 construction: its k entries in order, each with the accessions, names and sequence text written into it
@@ -261,7 +265,9 @@ theorem entriesOf_evsThrough (prolog : Nat) (pre : List DocEntry) (e : DocEntry)
   simp [evsThrough, entriesOf_append, hp, entriesOf_bodyEvs, entriesOf]
 
 /-- whatever follows the `</entry>` of an entry — nothing, the rest of the document, a cut or corrupted
-rest, anything — the reader has by then seen exactly the entries up to it -/
+rest, anything — the reader has by then seen exactly the entries up to it.  (The suffix `X` is only ever
+SKIPPED OVER by this statement: nothing is said about what the reader makes of it, and for texts outside the
+reader's subset — see Spec/XmlScan — nothing is claimed about the real decoder either.) -/
 theorem scan_prefix (prolog : Nat) (pre : List DocEntry) (e : DocEntry) (h : ∀ x ∈ pre ++ [e], WFDocEntry x)
     (X : Str) : ∃ more, (scanDoc (textThrough prolog pre e ++ X)).evs = evsThrough prolog pre e ++ more := by
   obtain ⟨hw, he⟩ := toksThrough_ok prolog pre e h X
@@ -316,24 +322,16 @@ schedule, a maximal run of uniprot.Parse on what the reader makes of `T` has del
 closed, the errors received are those the loop kept, and there is at least one if the reader's trace of `T`
 is not that of a well-formed document.  (NOT proved here: that every cut or corrupted `T` gives such a
 trace — the reader's / decoder's error detection; see PARTIAL.) -/
-theorem damaged_document_delivers (d : Doc) (pre : List DocEntry) (e : DocEntry) (post : List DocEntry)
-    (hd : d.entries = pre ++ e :: post) (h : WFDoc d) (T : Str)
-    (hT : T.take (textThrough d.prolog pre e).length = textThrough d.prolog pre e)
+theorem damaged_document_delivers (prolog : Nat) (pre : List DocEntry) (e : DocEntry)
+    (hwf : ∀ x ∈ pre ++ [e], WFDocEntry x) (T : Str)
+    (hT : T.take (textThrough prolog pre e).length = textThrough prolog pre e)
     (seq : Bool) (entCap errCap : Nat) (st : Sys Msg)
     (hr : Reach (consumer seq) (system entCap errCap (scanDoc T)) st) (hs : Stuck (consumer seq) st) :
     (pre ++ [e]).map DocEntry.toEntry <+: deliveredOf st ∧ bothClosed st = true ∧
       (recvd 1 st.hist).length = numErrors (scanDoc T) ∧ (¬ Clean (scanDoc T) → 1 ≤ (recvd 1 st.hist).length) := by
-  have hwf : ∀ x ∈ pre ++ [e], WFDocEntry x := by
-    intro x hx
-    apply h x
-    rw [hd]
-    simp only [List.mem_append, List.mem_cons, List.not_mem_nil, or_false] at hx ⊢
-    rcases hx with hx | hx
-    · exact .inl hx
-    · exact .inr (.inl hx)
-  have hTX : T = textThrough d.prolog pre e ++ T.drop (textThrough d.prolog pre e).length := by
-    conv => lhs; rw [← List.take_append_drop (textThrough d.prolog pre e).length T, hT]
-  obtain ⟨more, hm⟩ := scan_prefix d.prolog pre e hwf (T.drop (textThrough d.prolog pre e).length)
+  have hTX : T = textThrough prolog pre e ++ T.drop (textThrough prolog pre e).length := by
+    conv => lhs; rw [← List.take_append_drop (textThrough prolog pre e).length T, hT]
+  obtain ⟨more, hm⟩ := scan_prefix prolog pre e hwf (T.drop (textThrough prolog pre e).length)
   rw [← hTX] at hm
   have hf := finished_outcome (scanDoc T) st (maximal_finished (scanDoc T) seq entCap errCap st hr hs)
   refine ⟨?_, hf.2.2, by simp [hf.2.1], fun hc => ?_⟩
